@@ -38,7 +38,8 @@ ASSUMPTIONS = [
     "float rounding inside the L formula is not modelled: cases whose pre-ceil value is within 1e-9 (relative) "
     "of an integer are not compared",
     "run cases use observations on the lattice 840*k/2^p (all prefix means exact in binary floating point) with "
-    "integer cone rows, or float observations compared only when every dominance decision has margin > 1e-9",
+    "integer cone rows, or float observations compared only when every dominance decision has margin > 1e-9; "
+    "'bigoffset' runs add a common offset 2^20..2^30 to gaps 840*k*2^-10..2^-18 (exact in float64, not in float32)",
     "closed-form failure probability: exact product of normal cdfs for theta = 90, scipy's bivariate normal cdf "
     "(numerical, abs. error ~1e-8) for other angles; compared with delta with a relative margin of 1e-3",
     "Monte-Carlo confirmations are statistical tests (5-sigma binomial band, seeded through numpy's global RNG "
@@ -235,7 +236,8 @@ def gen(ctx):
     # --- runs
     exact = ["orthant2", "acute2", "obtuse2", "skew2", "redundant2", "threefacet2"]
     for i in range(ctx.n(60, 1500)):
-        shape = rng.choice(["lattice", "lattice", "ties", "float_theta", "default_L", "lattice3"])
+        shape = rng.choice(["lattice", "lattice", "ties", "float_theta", "default_L", "lattice3",
+                            "bigoffset", "bigoffset"])
         K = rng.randint(1, 7)
         if shape == "lattice3":
             cone, m = rng.choice(["orthant3", "acute3", "fourfacet3"]), 3
@@ -253,6 +255,20 @@ def gen(ctx):
             vals = [[840 * rng.randint(-1, 1) / 2 ** p for _ in range(m)] for _ in range(2)]
             rounds = [[list(rng.choice(vals)) for _ in range(K)] for _ in range(L + extra)]
             case = {"kind": "run", "cone": cone, "K": K, "L": L, "rounds": rounds, "shape": shape}
+        elif shape == "bigoffset":
+            # large common offset 2^a with fine gaps 840*k*2^-b: exactly representable (and exactly summable /
+            # averageable over <= 8 rounds) in float64 since a + b <= 48, but NOT in float32 (24-bit significand);
+            # the order of the designs lives entirely in the low bits.  Integer cones and bundled theta-cones.
+            a, b = rng.randint(20, 30), rng.randint(10, 18)
+            K, L = max(K, 2), max(L, 1)
+            off, stp = float(2 ** a), 840.0 / 2 ** b
+            rounds = [[[off + stp * rng.randint(-4, 4) for _ in range(2)] for _ in range(K)]
+                      for _ in range(L + extra)]
+            case = {"kind": "run", "K": K, "L": L, "rounds": rounds, "shape": shape, "offset": off}
+            if rng.random() < 0.5:
+                case["cone"] = rng.choice(exact)
+            else:
+                case["theta"] = rng.choice(THETAS)
         elif shape == "float_theta":
             theta = rng.choice(THETAS)
             rounds = [[[rng.gauss(0, 1) for _ in range(2)] for _ in range(K)] for _ in range(L + extra)]
@@ -470,6 +486,17 @@ def _case_run(ctx, case):
         ctx.violation("run-crash:" + core.exc_key(e), f"NaiveElimination run raised {type(e).__name__}: {e}", case)
         ctx.case_done(case, False)
         return
+    # (R) the observation tensor must hold the observations the problem returned, i.e. stay float64: any
+    # narrower dtype rounds every observation and P is then computed from other numbers than those observed
+    sd = getattr(algo.samples, "dtype", None)
+    if sd != np.float64:
+        ctx.violation("samples-not-float64",
+                      f"algorithm.samples has dtype {sd}, not float64: observations are rounded when stored, so P "
+                      "is not computed from the observations taken", case, kind="R", detail={"dtype": str(sd)})
+    elif requested and not np.array_equal(np.asarray(algo.samples), np.stack(requested, axis=1)):
+        ctx.violation("samples-differ-from-observations",
+                      "algorithm.samples is not the (K, round, m) tensor of the observations the problem returned",
+                      case, kind="R")
     # model trace
     ans = ctx.ask("run", str(L), str(K), ws, core.qmats(rounds) if rounds else "_")
     model = []
@@ -489,7 +516,9 @@ def _case_run(ctx, case):
             robust = True
             if not exact:
                 mg = ctx.ask("margin", ws, ss)
-                scale = max(1.0, float(np.abs(obs).max()))
+                # rounding of `x @ W.T` acts on mean DIFFERENCES (the means themselves are exact here); with a
+                # common offset the relevant scale is the spread, not the magnitude
+                scale = max(1.0, float(np.ptp(obs)) if "offset" in case else float(np.abs(obs).max()))
                 robust = mg == "none" or float(core.parse_q(mg)) > 1e-9 * scale
             if not robust:
                 ctx.count("step_not_robust_not_compared")
